@@ -524,7 +524,8 @@ void Interpolation_2D::Save_Function(std::string filename, unsigned int x_points
 // Root finding with Ridder's method
 double Find_Root(std::function<double(double)> func, double xLeft, double xRight, double xAccuracy)
 {
-	const int Max_Iterations = 50;
+	// Every iteration at least halves the bracket, hence ~2100 iterations exhaust the range of double for any bracket and accuracy.
+	const int Max_Iterations = 2200;
 	// 1. Check if xLeft<xRight, otherwise swap.
 	if(xLeft > xRight)
 	{
